@@ -60,6 +60,30 @@ func genC15(t *rapid.T) C15Case {
 		tree = g.Program(ty)
 	}
 	fixEmptyLists(tree)
+	// now and then a string literal that is a piece of infix punctuation, as a call argument, an if
+	// operand, a comparison operand and a list element
+	if rapid.IntRange(0, 5).Draw(t, "punct") == 0 {
+		pz := rapid.SampledFrom([]string{",", "(", ")", "[", "]", ", ", "(,", "!", "&&", "+", " ", "if(", "),("}).Draw(t, "punct_s")
+		sv := m.Var(g.varName(m.TStr))
+		var cond *m.Node
+		switch rapid.IntRange(0, 4).Draw(t, "punct_form") {
+		case 0:
+			cond = m.Op("eq", sv, m.Const(pz))
+		case 1:
+			cond = m.Op("eq", m.Const(pz), sv, sv.Clone())
+		case 2:
+			cond = m.Op("in", sv, m.Const([]string{pz, "x", pz}))
+		case 3:
+			cond = m.Op("==", m.Op("c_cat", m.Const(pz), sv), m.Const(pz))
+		default:
+			cond = m.Op("!=", m.If(m.Op("==", sv, m.Const(pz)), m.Const(pz), sv.Clone()), m.Const(pz))
+		}
+		if ty == m.TBool {
+			tree = m.Op(rapid.SampledFrom([]string{"&&", "||", "and"}).Draw(t, "punct_join"), cond, tree)
+		} else {
+			tree = m.If(cond, tree, m.Const(int64(7)))
+		}
+	}
 	normSymbolic(tree)
 	u := UniverseFor(t, tree, false)
 	u.Stateless = drawStateless(t)
@@ -273,6 +297,24 @@ func sweepC15(tier string, shard, shards int, emit func(C15Case)) {
 			emit(C15Case{U: u, Tree: tr, Infix: m.RenderInfix(tr, m.InfixOpts{Tight: func() bool { return true }}), NoEval: true, Origin: "sweep-not-tight"})
 		}
 	}
+	// redundant parentheses right after a `!`: the operand of `!` is still everything that binds tighter
+	for _, o1 := range infixBinaryOps {
+		for _, form := range []struct {
+			text string
+			a    *m.Node
+		}{
+			{"!(a) %s b", v("a")}, {"! ((a)) %s (b)", v("a")}, {"!(a) %s (b)", v("a")}, {"!mod(a, c) %s b", m.Op("mod", v("a"), v("c"))},
+			{"!if(p, a, c) %s b", m.If(v("p"), v("a"), v("c"))}, {"! (c_sum()) %s b", m.Op("c_sum")},
+		} {
+			var tr *m.Node
+			if m.InfixPrec(o1) > m.InfixPrec("!") {
+				tr = m.Op("!", m.Op(o1, form.a, v("b")))
+			} else {
+				tr = m.Op(o1, m.Op("!", form.a), v("b"))
+			}
+			emit(C15Case{U: u, Tree: tr, Infix: fmt.Sprintf(form.text, o1), NoEval: true, Origin: "sweep-not-parenthesised-operand"})
+		}
+	}
 	// a call, an if and a list at every depth 1..80 of right-nested additions and of redundant parentheses
 	for d := 1; d <= 80; d++ {
 		for _, bottom := range []*m.Node{m.Op("mod", v("b"), v("c")), m.If(v("p"), v("b"), v("c")), m.Op("c_sum"), m.Op("in", v("b"), m.Const([]int64{1, -2, 3}))} {
@@ -301,7 +343,7 @@ func sweepC15(tier string, shard, shards int, emit func(C15Case)) {
 
 var propC15 = Prop[C15Case]{
 	ID:    "C15",
-	Rule:  "typed random trees over the 16 symbolic binary operators, unary !, named calls with 0..5 arguments (built-in and custom), if(c,a,b), bracket lists, negative literals, rendered to infix with minimal parentheses by the stated precedence table, optionally with redundant parentheses, tight !x and extra white space; oracle: the tree read back from the infix program's Dump equals the rendered tree, Dump and DumpTable equal those of the prefix compilation (optimizations off, all on, folding only and one rotating subset; a drawn subset of the custom operators declared stateless), equal outcomes, and the optimized infix program agrees with R. Sweep: all 16x16 ordered operator pairs in both association shapes of 'a o1 b o2 c', as call arguments and as if operands; ! against every binary operator; 8^3 operator triples. Non-trivial = two infix-form operators are adjacent (precedence/associativity decides the shape) or an operator expression is a call argument; distinct by infix text",
+	Rule:  "typed random trees over the 16 symbolic binary operators, unary !, named calls with 0..5 arguments (built-in and custom), if(c,a,b), bracket lists, negative literals, rendered to infix with minimal parentheses by the stated precedence table, optionally with redundant parentheses, tight !x and extra white space; oracle: the tree read back from the infix program's Dump equals the rendered tree, Dump and DumpTable equal those of the prefix compilation (optimizations off, all on, folding only and one rotating subset; a drawn subset of the custom operators declared stateless), equal outcomes, and the optimized infix program agrees with R. Sweep: all 16x16 ordered operator pairs in both association shapes of 'a o1 b o2 c', as call arguments and as if operands; ! against every binary operator, also with a parenthesised operand / a call / an if directly after it; string literals that are punctuation (a comma, a parenthesis, a bracket ...) as call, if and comparison operands; 8^3 operator triples. Non-trivial = two infix-form operators are adjacent (precedence/associativity decides the shape) or an operator expression is a call argument; distinct by infix text",
 	Gen:   genC15,
 	Check: checkC15,
 	Sweep: sweepC15,
